@@ -32,6 +32,11 @@ type Ent struct {
 //   - a GetAndDelete that finds an expired entry must report absent; whether
 //     it fires the evicted callback for the entry it removed is left open.
 type M struct {
+	// StampNow, when non-zero, is the instant new expirations are computed from (ticking-clock
+	// mode: a call decides liveness with its first clock read and stamps with its last).
+	StampNow int64
+	Tick     bool // ticking-clock mode
+	NoClock  bool // the call being checked read no clock: it cannot have seen a possibly-cleaned entry as live
 	Now    int64
 	D      int64 // default expiration as stored (raw)
 	CB     bool  // an evicted callback is installed
@@ -79,8 +84,18 @@ func (m *M) Hash() string {
 	return string(b)
 }
 
-func (m *M) live(e *Ent) bool    { return e.Phys != Absent && (e.E == 0 || m.Now <= e.E) }
-func (m *M) expired(e *Ent) bool { return e.Phys != Absent && e.E != 0 && m.Now > e.E }
+func (m *M) live(e *Ent) bool {
+	if m.NoClock && e.Phys == Maybe {
+		return false
+	}
+	return e.Phys != Absent && (e.E == 0 || m.Now <= e.E)
+}
+func (m *M) expired(e *Ent) bool {
+	if m.NoClock && e.Phys == Maybe {
+		return true
+	}
+	return e.Phys != Absent && e.E != 0 && m.Now > e.E
+}
 
 // Live reports whether key k is visible.
 func (m *M) Live(k int) bool { return k >= 0 && k < len(m.Ents) && m.live(&m.Ents[k]) }
@@ -94,22 +109,36 @@ func (m *M) Exp(d int64) int64 {
 		d = m.D
 	}
 	if d > 0 {
+		if m.StampNow != 0 {
+			return m.StampNow + d
+		}
 		return m.Now + d
 	}
 	return 0
 }
 
-// Counts returns (#live incl. cold, #expired definitely present, #expired maybe present).
+// At positions the model at the instants a call read from the ticking clock (no reads: unchanged).
+func (m *M) At(nows []int64) {
+	m.StampNow = 0
+	m.NoClock = m.Tick && len(nows) == 0
+	if len(nows) > 0 {
+		m.Now = nows[0]
+		m.StampNow = nows[len(nows)-1]
+	}
+}
+
+// Counts returns (#live incl. cold, #expired definitely present, #expired maybe present). The
+// sum of the first two is the number of entries that are physically present for sure.
 func (m *M) Counts() (live, def, maybe int) {
 	for i := range m.Ents {
 		e := &m.Ents[i]
 		switch {
+		case e.Phys == Maybe:
+			maybe++
 		case m.live(e):
 			live++
 		case e.Phys == Present:
 			def++
-		case e.Phys == Maybe:
-			maybe++
 		}
 	}
 	if m.ColdOn {
@@ -480,10 +509,20 @@ func (m *M) Step(o *Op, r *Res) error {
 			}
 		}
 	case PSweepKey:
+		// One key of a DeleteExpired pass. The pass may decide by any instant between its first
+		// clock read (m.Now) and its return (m.StampNow when set): an entry expired at its start
+		// must go (and fire); one that expires while the pass runs may go; anything else must stay.
 		if err := needKey(); err != nil {
 			return err
 		}
-		if m.expired(e) {
+		end := m.Now
+		if m.StampNow > end {
+			end = m.StampNow
+		}
+		expStart := m.expired(e)
+		expEnd := e.Phys != Absent && e.E != 0 && end > e.E
+		switch {
+		case expStart:
 			if chk {
 				if r.OK {
 					if !m.CB {
@@ -497,8 +536,24 @@ func (m *M) Step(o *Op, r *Res) error {
 				}
 			}
 			*e = Ent{}
-		} else if chk && r.OK {
-			return errf("DeleteExpired fired (k%d,%d) for a key that is not expired-present at this point", o.Key, r.V)
+		case expEnd:
+			if chk && r.OK {
+				if !m.CB {
+					return errf("callback fired although none is installed")
+				}
+				if r.V != e.V {
+					return errf("DeleteExpired fired (k%d,%d) but the entry holds %d", o.Key, r.V, e.V)
+				}
+			}
+			if r.OK {
+				*e = Ent{}
+			} else if !m.CB || !chk {
+				e.Phys = Maybe // may have been removed silently (no callback to tell)
+			}
+		default:
+			if chk && r.OK {
+				return errf("DeleteExpired fired (k%d,%d) for a key that is not expired-present at this point", o.Key, r.V)
+			}
 		}
 	case MRange, CRange, CItems:
 		if chk {
@@ -510,19 +565,26 @@ func (m *M) Step(o *Op, r *Res) error {
 			}
 		}
 	case PVisitKey:
+		// One key of a traversal: visited only if unexpired when the traversal began (m.Now);
+		// must be visited if it stays present and unexpired until the traversal returns (m.StampNow).
 		if err := needKey(); err != nil {
 			return err
 		}
 		if chk {
-			if m.live(e) {
-				if !r.OK {
-					return errf("traversal skipped k%d which is present and unexpired", o.Key)
+			end := m.Now
+			if m.StampNow > end {
+				end = m.StampNow
+			}
+			liveEnd := m.live(e) && (e.E == 0 || end <= e.E)
+			if r.OK {
+				if !m.live(e) {
+					return errf("traversal showed (k%d,%d) but the key is absent/expired", o.Key, r.V)
 				}
 				if r.V != e.V {
 					return errf("traversal showed (k%d,%d), current value is %d", o.Key, r.V, e.V)
 				}
-			} else if r.OK {
-				return errf("traversal showed (k%d,%d) but the key is absent/expired", o.Key, r.V)
+			} else if liveEnd {
+				return errf("traversal skipped k%d which is present and unexpired", o.Key)
 			}
 		}
 	case PColdVisit, PColdLoad:
